@@ -30,6 +30,16 @@ def frames(case, api=None):
     for ti, rows in enumerate(case["tables"]):
         rows = list(rows)
         rng.shuffle(rows)
+        if case.get("with_arr"):
+            import pyarrow as pa
+
+            cols = {"unique_id": pa.array([r["unique_id"] for r in rows], pa.string() if idt == "str" else pa.int64()),
+                    "a": pa.array([r["a"] for r in rows], pa.string()), "b": pa.array([r["b"] for r in rows], pa.string()),
+                    "c": pa.array([r["c"] for r in rows], pa.int64()), "arr": pa.array([r["arr"] for r in rows], pa.list_(pa.string()))}
+            if case["explicit_sd"]:
+                cols["source_dataset"] = pa.array([ALIASES[ti]] * len(rows), pa.string())
+            out.append(pa.table(cols))
+            continue
         if case["explicit_sd"]:
             t2 = dict(types, source_dataset="str")
             out.append(impl.typed_frame([dict({k: r[k] for k in types}, source_dataset=ALIASES[ti]) for r in rows], t2))
@@ -42,6 +52,8 @@ def rule_arg(r):
     text = bg.sql_top(r["ast"]) if r.get("top_unparenthesised") else bg.sql(r["ast"])
     if r["kind"] == "salted":
         return {"blocking_rule": text, "salting_partitions": r["n"]}
+    if r["kind"] == "exploding":
+        return {"blocking_rule": bg.sql(r["ast"]), "arrays_to_explode": ["arr"]}
     return text
 
 
@@ -196,7 +208,7 @@ def oracle(case):
             if lt == "two_dataset_link_only" and False:
                 pass
             for i, ru in enumerate(case["rules"]):
-                v = bg.ev(ru["ast"], recs[l], recs[r])
+                v = bg.explode_true(ru["ast"], recs[l], recs[r]) if ru["kind"] == "exploding" else bg.ev(ru["ast"], recs[l], recs[r])
                 if v is True:
                     per_rule[i] += 1
                     break
@@ -243,7 +255,10 @@ def gen_case(rng: random.Random):
     k = rng.choice([1, 2, 2, 3])
     link_type = "dedupe_only" if k == 1 else rng.choice(["link_only", "link_and_dedupe"])
     idtype = rng.choice(["int", "str"])
-    tables = bg.gen_tables(rng, k, max_rows=rng.choice([3, 6, 9]), idtype=idtype, min_rows=1)
+    # an array column + exploding rules in the cumulative rule list (duckdb): the id-pair table of an exploding rule must hold only
+    # the pairs not produced by the rules before it
+    with_arr = engine == "duckdb" and rng.random() < 0.3
+    tables = bg.gen_tables(rng, k, max_rows=rng.choice([3, 6, 9]), idtype=idtype, min_rows=1, with_arr=with_arr)
     asym = rng.random() < 0.3
     # single rule: a conjunction with equi and filter parts, sometimes an OR (no equi keys)
     r = rng.random()
@@ -267,11 +282,17 @@ def gen_case(rng: random.Random):
     rules = []
     for _ in range(rng.randint(1, 4)):
         kind = "plain"  # salted rules make the cumulative function raise (no salt column in its concat table): loud, outside C14's quantifier
+        if with_arr and rng.random() < 0.5:
+            east = bg.gen_rule(rng, depth=1, asym_ok=False, arr=True)
+            if not bg.uses_arr(east):
+                east = ("and", ("arr", "arr"), east) if rng.random() < 0.5 else ("arr", "arr")
+            rules.append({"kind": "exploding", "ast": east})
+            continue
         d = {"kind": kind, "ast": bg.gen_rule(rng, depth=2, asym_ok=asym), "top_unparenthesised": rng.random() < 0.5}
         if kind == "salted":
             d["n"] = rng.randint(2, 3)
         rules.append(d)
-    return {"engine": engine, "link_type": link_type, "tables": tables, "idtype": idtype, "with_arr": False, "explicit_sd": rng.random() < 0.7,
+    return {"engine": engine, "link_type": link_type, "tables": tables, "idtype": idtype, "with_arr": with_arr, "explicit_sd": rng.random() < 0.7,
             "rule": {"kind": "plain", "ast": ast, "top_unparenthesised": rng.random() < 0.5}, "rules": rules, "n": rng.choice([1, 2, 5]),
             "shuffle": rng.randrange(1 << 30), "tag": "random"}
 
@@ -297,7 +318,7 @@ def compare(ctx, cases, drv):
         ctx.case({k: c[k] for k in ("tables", "rule", "rules", "link_type", "engine", "n")}, o["post"] > 0 or sum(o["per_rule"]) > 0,
                  sample={"case": {k: c[k] for k in ("tables", "rule", "rules", "link_type", "engine", "n")}, "impl": r if isinstance(r, dict) and "pre" in r else None} if sum(len(t) for t in c["tables"]) <= 4 else None)
         ctx.count("engine", c["engine"]); ctx.count("link_type", backend_lt(c)); ctx.count("n_equi_keys", len(atoms)); ctx.count("has_filter_part", bool(flt))
-        ctx.count("n_rules", len(c["rules"])); ctx.count("asymmetric", not bg.symmetric(c["rule"]["ast"]) or any(not bg.symmetric(x["ast"]) for x in c["rules"]))
+        ctx.count("n_rules", len(c["rules"])); ctx.count("exploding_rules_in_list", sum(1 for x in c["rules"] if x["kind"] == "exploding")); ctx.count("asymmetric", not bg.symmetric(c["rule"]["ast"]) or any(not bg.symmetric(x["ast"]) for x in c["rules"]))
         ctx.count("null_keys", any(k is None for k in req["keyL"]))
         if core.impl_error(r):
             ctx.count("impl_error", r["__error__"])
